@@ -187,6 +187,34 @@ def judge(kind, where, form, gap, eol='\n'):
     return False, 'ok', None
 
 
+def given_text_scenario():
+    """model_from_str(text, file_name=F): the errors point into the text that was given (named F), whatever F
+    holds on disk — also for an empty text"""
+    import shutil
+    from textx import metamodel_from_str
+    from textx.exceptions import TextXError
+    tmp = tempfile.mkdtemp(prefix='c28t_')
+    problems = []
+    try:
+        fn = os.path.join(tmp, 'buffer.m')
+        with open(fn, 'w') as f:
+            f.write('obj a\nuser u ref zz ;')        # on disk: unknown object at 2:12
+        for text, want in (('', None), ('\n\n  user u ref zz ;', (3, 14)), ('obj a user u ref a ;', None)):
+            mm = metamodel_from_str(GRAMMAR)
+            try:
+                mm.model_from_str(text, file_name=fn)
+                got = None
+            except TextXError as e:
+                got = (e.line, e.col)
+                if os.path.basename(e.filename or '') != 'buffer.m':
+                    problems.append('text %r given for buffer.m: the error names the file %r' % (text, e.filename))
+            if got != want:
+                problems.append('text %r given for buffer.m (other content on disk): error at %s, expected %s' % (text, got, want))
+        return problems
+    finally:
+        shutil.rmtree(tmp, ignore_errors=True)
+
+
 def explore(item):
     kind, = item
     ctx = Ctx(10000, max_paths=5000, free_selectors=True)
@@ -259,6 +287,10 @@ def main():
                 r['kind'], where, form, gap, eol, detail),
                 {'kind': r['kind'], 'where': where, 'form': form, 'gap': gap, 'eol': eol})
         chk.sample({'kind': r['kind'], 'loads': r['paths'], 'located_correctly': r['ok'], 'mislocated': len(r['bad'])})
+    for pr in given_text_scenario()[:2]:
+        chk.violation(pr, {'given_text': True})
+    paths += 3
+    chk.cov['bounds']['given_text'] = 'model_from_str(text, file_name=F) with other content on disk, incl. the empty text (concrete)'
     chk.cov['paths_explored'] = paths
     chk.cov['evaluations'] = paths
     chk.cov['distinct_nontrivial'] = paths
@@ -267,5 +299,8 @@ def main():
 
 
 def replay(data):
+    if data.get('given_text'):
+        pr = given_text_scenario()
+        return bool(pr), pr[:2]
     bad, detail, gw = judge(data['kind'], data['where'], data['form'], data['gap'], data.get('eol', '\n'))
     return bad, detail
